@@ -119,3 +119,20 @@ Definition reset_state (g gfh : Z) (s : store) : store :=
 (* crash point inside the reset that assertion [asr] triggers on [s] *)
 Definition reset_crash (g gfh : Z) (s : store) (k : nat) (torn : option Z) : option store :=
   crash_state s (reset_steps gfh g) k torn.
+
+(* ---------------- lost file tail: an ENVIRONMENT step, not a process crash ---------------- *)
+(* The crash model above is process death: completed write()s survive.  A
+   power loss can do more: the flat files are never fsynced while every bbolt
+   commit is, so the last [bytes] bytes of a flat file may be gone although
+   the index transactions that followed them are durable.  The image "index
+   tip beyond the file" is stated here, outside [crash_state], so that the
+   process-crash theorems stay what they are.  What the code (and [recover])
+   does with it: it refuses to open (C08_lost_tail_fails_closed); a store that
+   opens on such an image has to get rid of the lost headers' index entries,
+   which moving the tip key alone does not do. *)
+Definition lose_tail (esz : Z) (f : ffile) (bytes : Z) : option ffile :=
+  if (0 <? bytes) && (bytes <=? fsize esz f) then ftruncate esz f (fsize esz f - bytes) else None.
+Definition lose_block_tail (s : store) (bytes : Z) : option store :=
+  set_bf s <$> lose_tail BSZ (bf s) bytes.
+Definition lose_filter_tail (s : store) (bytes : Z) : option store :=
+  set_ff s <$> lose_tail FSZ (ff s) bytes.
